@@ -1,23 +1,327 @@
 package ssaexec
 
 import (
+	"fmt"
 	"go/types"
 
 	"golang.org/x/tools/go/ssa"
+
+	"gosmt/smt"
 )
 
-// ChanV is a channel in the (sequentialised) thread model.
+// Thread model (C18): interpreted goroutines run one at a time; the running
+// one yields only at synchronisation operations (mutex acquire, channel
+// send/receive, errgroup.Wait, goroutine start and exit), where the next
+// thread to run is a decision over the enabled threads. Critical sections
+// are therefore atomic steps.
+
+// ChanV is a buffered channel.
 type ChanV struct {
 	buf    []Value
 	cap    int
 	closed bool
 }
 
-func (x *Exec) makeChan(t types.Type, size Value) Value {
-	panic(x.unsupported("channels"))
+type thread struct {
+	id      int
+	resume  chan bool // true = run, false = exit
+	done    bool
+	started bool
+	stack   []*frame
+	waiting func() bool // nil or "may proceed"
+	group   *groupState
 }
-func (x *Exec) chanSend(c *ChanV, v Value)                     { panic(x.unsupported("chan send")) }
-func (x *Exec) chanRecv(c *ChanV, t types.Type) (Value, bool)  { panic(x.unsupported("chan recv")) }
-func (x *Exec) chanClose(c *ChanV)                             { panic(x.unsupported("chan close")) }
-func (x *Exec) spawn(fn Value, args []Value)                   { panic(x.unsupported("go statement")) }
-func (x *Exec) selectStmt(fr *frame, in *ssa.Select) Value     { panic(x.unsupported("select")) }
+
+type threadKill struct{}
+
+type lockState struct {
+	writer  bool
+	readers int
+}
+
+type groupState struct {
+	live     int
+	firstErr IfaceV
+}
+
+func (x *Exec) makeChan(t types.Type, size Value) Value {
+	n := int(size.(*smt.Term).Int())
+	if n < 1 {
+		panic(x.unsupported("unbuffered channel"))
+	}
+	return &ChanV{cap: n}
+}
+
+func (x *Exec) mainThread() *thread {
+	if len(x.threads) == 0 {
+		x.threads = []*thread{{id: 0, resume: make(chan bool), started: true}}
+		x.cur = x.threads[0]
+	}
+	return x.threads[0]
+}
+
+// yield is a scheduling point: the current thread may proceed once cond
+// holds; any enabled thread may be chosen to run first.
+func (x *Exec) yield(cond func() bool) {
+	x.mainThread()
+	me := x.cur
+	me.waiting = cond
+	for {
+		var enabled []*thread
+		for _, t := range x.threads {
+			if t.done {
+				continue
+			}
+			if t.waiting == nil || t.waiting() {
+				enabled = append(enabled, t)
+			}
+		}
+		if len(enabled) == 0 {
+			x.findings = append(x.findings, &Finding{Kind: "deadlock", Label: "deadlock", Harness: x.harness, Path: append([]int{}, x.sc.trace...), Msg: "all goroutines blocked"})
+			panic(pathEnd{"deadlock"})
+		}
+		meEnabled := me.waiting == nil || me.waiting()
+		if meEnabled && x.Opt.Preempt >= 0 && x.preemptions >= x.Opt.Preempt {
+			// preemption bound reached: the running thread keeps running while it can
+			me.waiting = nil
+			return
+		}
+		next := enabled[x.Choose(len(enabled))]
+		if next == me {
+			me.waiting = nil
+			return
+		}
+		if meEnabled {
+			x.preemptions++
+		}
+		x.switchTo(next)
+		if me.waiting == nil || me.waiting() {
+			// we were resumed because we are enabled; take the step
+			me.waiting = nil
+			return
+		}
+	}
+}
+
+// switchTo hands the baton to next and blocks the current thread until it is
+// resumed.
+func (x *Exec) switchTo(next *thread) {
+	me := x.cur
+	me.stack = x.stack
+	x.cur = next
+	x.stack = next.stack
+	x.Switches++
+	next.resume <- true
+	x.park(me)
+}
+
+func (x *Exec) park(me *thread) {
+	ok := <-me.resume
+	if !ok {
+		panic(threadKill{})
+	}
+	if me.id == 0 && x.pendingPanic != nil {
+		p := x.pendingPanic
+		x.pendingPanic = nil
+		panic(p)
+	}
+}
+
+func (x *Exec) spawn(fnv Value, args []Value) { x.spawnIn(fnv, args, nil) }
+
+func (x *Exec) spawnIn(fnv Value, args []Value, g *groupState) {
+	x.mainThread()
+	t := &thread{id: len(x.threads), resume: make(chan bool), group: g}
+	x.threads = append(x.threads, t)
+	x.threadWG.Add(1)
+	go func() {
+		defer x.threadWG.Done()
+		if ok := <-t.resume; !ok {
+			return
+		}
+		t.started = true
+		defer func() {
+			r := recover()
+			if _, killed := r.(threadKill); killed {
+				return
+			}
+			t.done = true
+			if r != nil {
+				// hand the panic (path end, engine error, uncaught target panic) to the main thread
+				x.pendingPanic = r
+				main := x.threads[0]
+				t.stack = x.stack
+				x.cur = main
+				x.stack = main.stack
+				main.resume <- true
+				return
+			}
+			// normal exit: pick who runs next
+			x.exitThread(t)
+		}()
+		res := x.call(fnv, args, nil)
+		if g != nil {
+			g.live--
+			if err, ok := res.(IfaceV); ok && err.T != nil && g.firstErr.T == nil {
+				g.firstErr = err
+			}
+		}
+	}()
+	// the new thread is runnable; whether it runs now is a scheduling decision
+	x.yield(nil)
+}
+
+func (x *Exec) exitThread(t *thread) {
+	var enabled []*thread
+	for _, o := range x.threads {
+		if !o.done && (o.waiting == nil || o.waiting()) {
+			enabled = append(enabled, o)
+		}
+	}
+	if len(enabled) == 0 {
+		x.pendingPanic = pathEnd{"deadlock"}
+		x.findings = append(x.findings, &Finding{Kind: "deadlock", Label: "deadlock", Harness: x.harness, Msg: "all goroutines blocked"})
+		enabled = []*thread{x.threads[0]}
+	}
+	var next *thread
+	func() {
+		defer func() {
+			if r := recover(); r != nil {
+				x.pendingPanic = r
+				next = x.threads[0]
+			}
+		}()
+		next = enabled[x.Choose(len(enabled))]
+	}()
+	x.cur = next
+	x.stack = next.stack
+	x.Switches++
+	next.resume <- true
+}
+
+// killThreads releases every parked interpreted goroutine at the end of a path.
+func (x *Exec) killThreads() {
+	for _, t := range x.threads {
+		if t.id != 0 && !t.done {
+			select {
+			case t.resume <- false:
+			default:
+				// not parked on resume (cannot happen: only one thread runs)
+			}
+		}
+	}
+	// wait until the released goroutines have unwound: they share this executor
+	x.threadWG.Wait()
+	x.threads = nil
+	x.cur = nil
+	x.locks = nil
+	x.pendingPanic = nil
+}
+
+func (x *Exec) chanSend(c *ChanV, v Value) {
+	if c == nil {
+		panic(x.unsupported("send on nil channel"))
+	}
+	x.yield(func() bool { return c.closed || len(c.buf) < c.cap })
+	if c.closed {
+		x.rtPanic("send on closed channel")
+	}
+	c.buf = append(c.buf, v)
+}
+
+func (x *Exec) chanRecv(c *ChanV, t types.Type) (Value, bool) {
+	if c == nil {
+		panic(x.unsupported("receive from nil channel"))
+	}
+	x.yield(func() bool { return c.closed || len(c.buf) > 0 })
+	if len(c.buf) > 0 {
+		v := c.buf[0]
+		c.buf = c.buf[1:]
+		return v, true
+	}
+	return x.zero(t), false
+}
+
+func (x *Exec) chanClose(c *ChanV) {
+	if c == nil || c.closed {
+		x.rtPanic("close of nil or closed channel")
+	}
+	c.closed = true
+}
+
+func (x *Exec) selectStmt(fr *frame, in *ssa.Select) Value { panic(x.unsupported("select")) }
+
+func (x *Exec) lockOf(c *Cell) *lockState {
+	if x.locks == nil {
+		x.locks = map[*Cell]*lockState{}
+	}
+	l := x.locks[c]
+	if l == nil {
+		l = &lockState{}
+		x.locks[c] = l
+	}
+	return l
+}
+
+func init() {
+	lock := func(write bool) intrinsic {
+		return func(x *Exec, _ *ssa.Function, a []Value) Value {
+			l := x.lockOf(a[0].(*Cell))
+			if write {
+				x.yield(func() bool { return !l.writer && l.readers == 0 })
+				l.writer = true
+			} else {
+				x.yield(func() bool { return !l.writer })
+				l.readers++
+			}
+			return nil
+		}
+	}
+	unlock := func(write bool) intrinsic {
+		return func(x *Exec, _ *ssa.Function, a []Value) Value {
+			l := x.lockOf(a[0].(*Cell))
+			if write {
+				if !l.writer {
+					x.rtPanic("sync: unlock of unlocked mutex")
+				}
+				l.writer = false
+			} else {
+				if l.readers == 0 {
+					x.rtPanic("sync: RUnlock of unlocked RWMutex")
+				}
+				l.readers--
+			}
+			return nil
+		}
+	}
+	intrinsics["(*sync.Mutex).Lock"] = lock(true)
+	intrinsics["(*sync.Mutex).Unlock"] = unlock(true)
+	intrinsics["(*sync.RWMutex).Lock"] = lock(true)
+	intrinsics["(*sync.RWMutex).Unlock"] = unlock(true)
+	intrinsics["(*sync.RWMutex).RLock"] = lock(false)
+	intrinsics["(*sync.RWMutex).RUnlock"] = unlock(false)
+	intrinsics["(*golang.org/x/sync/errgroup.Group).Go"] = func(x *Exec, _ *ssa.Function, a []Value) Value {
+		gc := a[0].(*Cell)
+		if x.groups == nil {
+			x.groups = map[*Cell]*groupState{}
+		}
+		g := x.groups[gc]
+		if g == nil {
+			g = &groupState{}
+			x.groups[gc] = g
+		}
+		g.live++
+		x.spawnIn(a[1], nil, g)
+		return nil
+	}
+	intrinsics["(*golang.org/x/sync/errgroup.Group).Wait"] = func(x *Exec, _ *ssa.Function, a []Value) Value {
+		g := x.groups[a[0].(*Cell)]
+		if g == nil {
+			return IfaceV{}
+		}
+		x.yield(func() bool { return g.live == 0 })
+		return g.firstErr
+	}
+}
+
+var _ = fmt.Sprint
